@@ -149,6 +149,12 @@ def check_cast(rep, db, f, inst):
     want_kind = CASTS[f["sn"]]
     ex = []
     explicit_casts(f["body"], ex)
+    tt0 = f.get("targt") or []
+    TL, TR = (tt0[0] or {}) if tt0 else {}, (tt0[1] or {}) if len(tt0) > 1 else {}
+    if f["sn"] == "sandbox_static_cast" and TL.get("k") == "int" and TR.get("k") == "int":
+        # integer -> integer: judged by VALUE, whatever the number of casts written: the chain of conversions applied to the
+        # argument must equal the single conversion static_cast<T_Lhs> for every source value
+        return check_int_cast_chain(rep, db, f, inst, TL, TR)
     if len(ex) != 1:
         rep.violation(rule, site(f), "%s must apply exactly one conversion to the unwrapped value; found %d explicit casts" % (f["sn"], len(ex)), f["loc"], inst)
         return
@@ -203,3 +209,57 @@ def check_cast(rep, db, f, inst):
             rep.violation(rule, site(f), "the value wrapped is %s, not the cast of the argument's value" % fmt(v)[:120], f["loc"], inst)
             return
     rep.ok(rule, site(f), "%s of the argument's value, wrapped unchanged" % want_kind.replace("CXX", "").replace("Expr", ""), inst)
+
+
+def type_by_name(db, name):
+    for t in db.types:
+        if t and t.get("k") in ("int", "bool") and (t.get("u") == name or t.get("c") == name):
+            return t
+    return None
+
+
+def check_int_cast_chain(rep, db, f, inst, TL, TR):
+    """sandbox_static_cast<L>(wrapper<R>) for integer L, R: two's-complement conversions are ring homomorphisms, so a chain
+    R -> U1 -> ... -> Un -> L equals R -> L for every value iff, walking the chain, the value is either still exactly the source
+    value (every Ui so far could represent every value of R) or known modulo 2^m with m >= width(L)."""
+    rule = "R-C20-cast"
+    tt = f.get("targt") or []
+    tlhs = (tt[0] or {}).get("c") if tt else None
+    sbx = (tt[2] or {}).get("c") if len(tt) > 2 else None
+    ret_c = (f.get("ret") or {}).get("c") or ""
+    if norm(ret_c) != norm("rlbox::tainted<%s, %s>" % (tlhs, sbx)):
+        rep.violation(rule, site(f), "returns %s, expected tainted<%s, %s>" % (ret_c, tlhs, sbx), f["loc"], inst)
+        return
+    from ..interval import trange
+    rhs = ("pobj", f["params"][0]["n"])
+    for p in Engine(db).run(f):
+        v = ops.ret_data(p)
+        if v is None:
+            rep.inconclusive(rule, site(f), "cannot determine the returned value", inst)
+            return
+        chain = []
+        t = v
+        while isinstance(t, tuple) and t[:1] in (("cast",), ("xcast",)):
+            chain.append(t[1])
+            t = t[2]
+        if not ops.is_value_of(strip_casts(t), rhs):
+            rep.violation(rule, site(f), "the value wrapped is %s, not a conversion of the argument's value" % fmt(v)[:120], f["loc"], inst)
+            return
+        lo, hi = trange(TR)
+        exact, m = True, None   # value == source exactly / value known modulo 2^m
+        for name in reversed(chain):  # innermost conversion first
+            U = type_by_name(db, name)
+            if U is None or U.get("k") == "bool":
+                rep.inconclusive(rule, site(f), "conversion through %s cannot be judged" % name, inst)
+                return
+            ulo, uhi = trange(U)
+            if exact and ulo <= lo and hi <= uhi:
+                continue
+            exact = False
+            m = U["w"] if m is None else min(m, U["w"])
+        if not exact and (m is None or m < TL["w"]) and TL.get("k") != "bool":
+            bad = next(n_ for n_ in reversed(chain) if (type_by_name(db, n_) or {}).get("w", 99) < TL["w"] or True)
+            rep.violation(rule, site(f), "sandbox_static_cast<%s>(%s) converts through %s: for source values that %s cannot represent the result differs from static_cast<%s> (e.g. %d)" % (
+                TL.get("u"), TR.get("u"), " -> ".join(reversed(chain)), bad, TL.get("u"), lo if lo < 0 else hi), f["loc"], inst)
+            return
+    rep.ok(rule, site(f), "value equals static_cast<%s> of the argument for every source value" % TL.get("u"), inst)
